@@ -10,18 +10,20 @@
 (* trace spec does not branch: the search is one path and the depth TLC    *)
 (* reports is the number of events explained (acceptance: all of them).    *)
 (***************************************************************************)
-EXTENDS FlexScanner, Json, IOUtils
+EXTENDS FlexScanner, FlexGeom, Json, IOUtils
 
 Cases == ndJsonDeserialize(IOEnv.CASES)
 RSetsDef == [k \in 1..Len(Cases) |-> Compile(Cases[k].src)]
 Tr == ndJsonDeserialize(IOEnv.TRACE)
 
 VARIABLES l,
-          rfault    \* errno of an injected hard read error not yet reported by the scanner (0: none)
-tvars == <<svars, l, rfault>>
+          rfault,   \* errno of an injected hard read error not yet reported by the scanner (0: none)
+          caps      \* yy_buf_size of every buffer as far as the trace has shown it (0: not yet)
+tvars == <<svars, l, rfault, caps>>
 
 E == Tr[l]
-Is(e) == l <= Len(Tr) /\ E.e = e /\ l' = l + 1 /\ (E.e \in {"ReadFault", "Fatal", "Reset"} \/ UNCHANGED rfault)
+Is(e) == /\ l <= Len(Tr) /\ E.e = e /\ l' = l + 1 /\ (E.e \in {"ReadFault", "Fatal", "Reset"} \/ UNCHANGED rfault)
+         /\ (E.e \in {"Read", "Reset"} \/ UNCHANGED caps)
 
 StateOK == /\ E.sc = sc' /\ E.depth = Len(stk')
            /\ (opt'.reentrant /\ cur' = 0) \/ E.lineno = lineno'     \* reentrant: yylineno lives in the current buffer
@@ -29,16 +31,31 @@ StateOK == /\ E.sc = sc' /\ E.depth = Len(stk')
 BufOK == StateOK /\ E.cur = cur'
 Same == UNCHANGED svars
 
-TInit == SInit /\ l = 1 /\ rfault = 0
+NoCaps == [b \in 0..64 |-> 0]
+TInit == SInit /\ l = 1 /\ rfault = 0 /\ caps = NoCaps
 
-TReset == /\ Is("Reset") /\ rfault' = 0
+TReset == /\ Is("Reset") /\ rfault' = 0 /\ caps' = NoCaps
           /\ Reset(E.rs, E.files, [interactive |-> E.interactive, array |-> E.array, lno |-> E.linenoopt,
                                    bolneeded |-> E.bolneeded, rejectmode |-> E.rejectmode, bufsize |-> E.bufsize,
                                    strictread |-> E.strictread, reentrant |-> E.reentrant, userwrap |-> E.userwrap,
                                    failalloc |-> E.failalloc, stdio |-> E.stdio, yylmax |-> E.yylmax])
+\* A request made by the scanner's own refill (harness-owned YY_INPUT: the event carries the geometry it was
+\* made from).  What the properties demand of it is safety, not a policy: the text carried over and the bytes
+\* requested, with the two end-of-buffer sentinels, fit the buffer whatever the source then delivers (C13), at
+\* least one byte is asked for (progress, C03), nothing pending is dropped, and a buffer that may not grow -
+\* REJECT scanners, as documented - does not.  How much a buffer grows and how large requests are (doubling,
+\* YY_READ_BUF_SIZE: FlexGeom / FlexBuffer describe the present code) is deliberately not enforced.
+Geometry ==
+  IF "cap" \in DOMAIN E /\ cur # 0 /\ cur <= 64
+  THEN /\ caps' = [caps EXCEPT ![cur] = E.cap]
+       /\ E.req >= 1 /\ E.keep >= 0 /\ E.keep + E.req <= E.cap
+       /\ phase = "scan" => E.keep >= InBufPfx + Len(buf)
+       /\ (opt.rejectmode /\ caps[cur] # 0) => E.cap = caps[cur]
+  ELSE UNCHANGED caps
 TCall  == Is("Call") /\ Call
 TRead  == /\ Is("Read") /\ E.f + 1 = ReadFile /\ E.got = Len(E.bytes) /\ ReadFile <= Len(files)
           /\ E.got <= Len(files[ReadFile]) /\ E.bytes = SubSeq(files[ReadFile], 1, E.got) /\ Read(E.got)
+          /\ Geometry
 TTok   == /\ Is("Tok") /\ E.leng >= Len(pfx)
           /\ \/ Match(E.rule, E.leng - Len(pfx))
              \/ MatchAgain(E.rule, E.leng - Len(pfx))
